@@ -167,16 +167,31 @@ def rule_tiling(ctx, py):
         if f.body and isinstance(f.body[-1], ast.Return) and (f.body[-1].value is None or (
                 isinstance(f.body[-1].value, ast.Constant) and f.body[-1].value.value is None)):
             got = [g for g in got if g[0] is not f.body[-1]]
-        ctx.need(len(got) == len(want), R, "%s: %d returns, expected %d" % (name, len(got), len(want)))
-        for (node, expr, facts), (wexpr, wfacts) in zip(got, want):
-            okk = expr == wexpr and all(x in facts for x in wfacts)
-            mine = sorted("%s%s" % ("" if p else "not ", t) for t, p in facts if isinstance(t, str) and
-                          ("t " in t or " t" in t or "dt" in t or "len(" in t) and not t.startswith("iter:"))
-            ctx.check(okk, R, node, f._qual, "return %s when %s" % (wexpr, " and ".join(
+        ctx.need(got, R, "%s: no return found" % name)
+        # tiles are matched by what they return and under which tests, not by position: a missing tile and a return that is no
+        # documented tile are both reported
+        used = set()
+        for wexpr, wfacts in want:
+            hit = [k for k, (node, expr, facts) in enumerate(got) if k not in used and expr == wexpr and
+                   all(x in facts for x in wfacts)]
+            if hit:
+                used.add(hit[0])
+            near = [g for k, g in enumerate(got) if k not in used and g[1] == wexpr]
+            node = got[hit[0]][0] if hit else (near[0][0] if near else f)
+            mine = sorted("%s%s" % ("" if p else "not ", t) for t, p in (near[0][2] if near and not hit else ()) if isinstance(t, str)
+                          and ("t " in t or " t" in t or "dt" in t or "len(" in t) and not t.startswith("iter:"))
+            ctx.check(bool(hit), R, node, f._qual, "return %s when %s" % (wexpr, " and ".join(
                       "%s%s" % ("" if p else "not ", t) for t, p in wfacts)),
                       "boundary / interval test as documented",
-                      "returns %s under [%s]: the lookups no longer tile the time axis with the documented "
-                      "boundaries and ties" % (expr, "; ".join(mine)))
+                      "no return of %s under these tests%s: the lookups no longer tile the time axis with the documented "
+                      "boundaries and ties" % (wexpr, (" (it is returned under [%s])" % "; ".join(mine)) if mine else ""))
+        for k, (node, expr, facts) in enumerate(got):
+            if k in used:
+                continue
+            mine = sorted("%s%s" % ("" if p else "not ", t) for t, p in facts if isinstance(t, str) and
+                          ("t " in t or " t" in t or "dt" in t or "len(" in t) and not t.startswith("iter:"))
+            ctx.violation(R, node, f._qual, "return %s under [%s]" % (expr, "; ".join(mine)[:90]),
+                          "this return is none of the documented tiles of %s: part of the time axis is answered differently" % name)
         from .. import pysym
         loops = [n for n in ast.walk(f) if isinstance(n, ast.For)]
         ctx.check(len(loops) == 1 and pysym.isrc(loops[0].iter, f) == "range(self.nsamples() - 1)", R,
@@ -259,5 +274,5 @@ def run(ctx):
     from . import c12
     c12.rule_traj(ctx, ctx.py, "C17.TRAJ")
     from .. import lints
-    lints.run(ctx, "C17", ctx.py, ["rdoutput", "rdgridspace", "rdgraphspace", "rdsystem"], truth_floor=8)
+    lints.run(ctx, "C17", ctx.py, ["rdoutput", "rdgridspace", "rdgraphspace", "rdsystem", "rdnetwork"], truth_floor=8)
     ctx.assume("returned values are not decided; the data layout written by the engine is C09.LAYOUT-OUT")
